@@ -32,6 +32,12 @@ def _pure(e):
         return all(_pure(x) for x in e.elts)
     if isinstance(e, ast.Lambda):
         return True
+    if isinstance(e, ast.Call) and isinstance(e.func, ast.Attribute) and isinstance(e.func.value, ast.Name) and e.func.value.id == "re" \
+            and e.func.attr == "compile" and e.args and all(isinstance(a, ast.Constant) for a in e.args) and not e.keywords:
+        return True  # a compiled constant pattern: immutable, and compiling it again gives an equal object
+    if isinstance(e, ast.Dict):
+        # a row may carry keyword options: {"is_gate": True}; only ever spliced into a call as **options (checked at the use)
+        return all(isinstance(k, ast.Constant) and isinstance(k.value, str) for k in e.keys) and all(_pure(v) and not isinstance(v, ast.Dict) for v in e.values)
     return False
 
 
@@ -350,6 +356,15 @@ class _Unroller(ast.NodeTransformer):
         scope = self.func[-1]
         if scope is None:
             return None  # module-level loops are left alone
+        dict_names = {k for m in binds for k, v in m.items() if isinstance(v, ast.Dict)}
+        if dict_names:
+            # a dict-valued column is only read as **name in a call (a fresh literal per row is then indistinguishable from the shared one)
+            star_uses = {id(kw.value) for s_ in list(n.body) + list(n.orelse) + list(rest) for c in ast.walk(s_) if isinstance(c, ast.Call)
+                         for kw in c.keywords if kw.arg is None and isinstance(kw.value, ast.Name)}
+            for s_ in list(n.body) + list(n.orelse) + list(rest):
+                for x in ast.walk(s_):
+                    if isinstance(x, ast.Name) and x.id in dict_names and id(x) not in star_uses:
+                        return None
         # reads of the loop variables after the loop: a search loop (`break` on the matching row) followed by code that uses the
         # row.  Allowed when every such read sits in the rest of the loop's own block: that rest is then continued per row.
         end = getattr(n, "end_lineno", n.lineno)
@@ -441,6 +456,16 @@ class _Fold(ast.NodeTransformer):
 
     def visit_Call(self, n):
         self.generic_visit(n)
+        if any(kw.arg is None and isinstance(kw.value, ast.Dict) for kw in n.keywords):
+            # f(a, **{"k": v})  ->  f(a, k=v)
+            kws = []
+            for kw in n.keywords:
+                if kw.arg is None and isinstance(kw.value, ast.Dict) and all(isinstance(k, ast.Constant) and isinstance(k.value, str) and k.value.isidentifier()
+                                                                             for k in kw.value.keys):
+                    kws.extend(ast.keyword(arg=k.value, value=v) for k, v in zip(kw.value.keys, kw.value.values))
+                else:
+                    kws.append(kw)
+            n.keywords = kws
         if isinstance(n.func, ast.Name) and n.func.id == "getattr" and len(n.args) == 2 and not n.keywords \
                 and isinstance(n.args[1], ast.Constant) and isinstance(n.args[1].value, str) and n.args[1].value.isidentifier():
             return ast.copy_location(ast.Attribute(value=n.args[0], attr=n.args[1].value, ctx=ast.Load()), n)
@@ -489,14 +514,86 @@ def unroll(tree, nodes=None):
              and isinstance(x.iter.func.value, (ast.Dict, ast.Name)))
             for x in nodes)):
         tree = u.visit(tree)
-    if u.count or fold:
+    dispatch = any(isinstance(x, ast.Call) and isinstance(x.func, ast.Attribute) and x.func.attr == "get" for x in nodes) and \
+        (tables.module or tables.cls) and _dict_get_dispatch(tree, tables)
+    if u.count or fold or dispatch:
         tree = _Fold(tables).visit(tree)
         ast.fix_missing_locations(tree)
         choice = True
+        # constants picked by a branch and used reflectively further down: read the continuation once per choice
+        for fn in ast.walk(tree):
+            if isinstance(fn, (ast.FunctionDef, ast.AsyncFunctionDef)) and _reflective_use(fn.body, None):
+                fn.body = _fold_constant_tests(specialise(fn.body)) or fn.body
+        ast.fix_missing_locations(tree)
     if choice:
         tree = _Choice().visit(tree)
         ast.fix_missing_locations(tree)
     return tree, u.count
+
+
+def _dict_get_dispatch(tree, tables):
+    """x = TABLE.get(k[, d])  with TABLE a constant dict   ->   if k == K1: x = V1 elif k == K2: x = V2 … else: x = d
+    (keys and values side-effect-free expressions; what a dict lookup does for keys with ordinary equality)"""
+    changed = [False]
+
+    def rewrite(st):
+        if not (isinstance(st, ast.Assign) and len(st.targets) == 1 and isinstance(st.targets[0], ast.Name) and isinstance(st.value, ast.Call)):
+            return None
+        c = st.value
+        if not (isinstance(c.func, ast.Attribute) and c.func.attr == "get" and 1 <= len(c.args) <= 2 and not c.keywords and _simple(c.args[0])):
+            return None
+        d = tables.resolve(c.func.value, {}) if isinstance(c.func.value, (ast.Name, ast.Attribute)) else c.func.value
+        if not (isinstance(d, ast.Dict) and d.keys and len(d.keys) <= MAX_ROWS and all(k is not None and _simple(k) for k in d.keys) and all(_pure(v) for v in d.values)):
+            return None
+        default = c.args[1] if len(c.args) == 2 else ast.Constant(value=None)
+        if not _pure(default):
+            return None
+
+        def asg(v):
+            return ast.copy_location(ast.Assign(targets=[copy_tree(st.targets[0])], value=copy_tree(v)), st)
+        node = [asg(default)]
+        for k, v in reversed(list(zip(d.keys, d.values))):
+            test = ast.Compare(left=copy_tree(c.args[0]), ops=[ast.Eq()], comparators=[copy_tree(k)])
+            node = [ast.copy_location(ast.If(test=test, body=[asg(v)], orelse=node), st)]
+        ast.fix_missing_locations(node[0])
+        changed[0] = True
+        return node[0]
+
+    def block(stmts):
+        for i, st in enumerate(stmts):
+            r = rewrite(st)
+            if r is not None:
+                stmts[i] = r
+                continue
+            for fld in ("body", "orelse", "finalbody"):
+                sub = getattr(st, fld, None)
+                if isinstance(sub, list) and sub and isinstance(sub[0], ast.stmt):
+                    block(sub)
+            for h in getattr(st, "handlers", []) or []:
+                block(h.body)
+    block(tree.body)
+    return changed[0]
+
+
+def _fold_constant_tests(stmts):
+    """if <literal> is [not] None: A else: B  ->  A or B   (left behind when a constant is substituted for a name)"""
+    out = []
+    for st in stmts:
+        for fld in ("body", "orelse", "finalbody"):
+            sub = getattr(st, fld, None)
+            if isinstance(sub, list) and sub and isinstance(sub[0], ast.stmt) and not isinstance(st, (ast.FunctionDef, ast.AsyncFunctionDef, ast.ClassDef)):
+                setattr(st, fld, _fold_constant_tests(sub) or [ast.copy_location(ast.Pass(), st)])
+        if isinstance(st, ast.If) and isinstance(st.test, ast.Compare) and len(st.test.ops) == 1 and isinstance(st.test.ops[0], (ast.Is, ast.IsNot)) \
+                and isinstance(st.test.comparators[0], ast.Constant) and st.test.comparators[0].value is None \
+                and isinstance(st.test.left, (ast.Constant, ast.Tuple, ast.List, ast.Dict)):
+            is_none = isinstance(st.test.left, ast.Constant) and st.test.left.value is None
+            truth = is_none if isinstance(st.test.ops[0], ast.Is) else not is_none
+            out.extend(st.body if truth else st.orelse)
+            if out and isinstance(out[-1], (ast.Return, ast.Raise, ast.Continue, ast.Break)):
+                return out  # what followed the folded test in this block can no longer be reached
+            continue
+        out.append(st)
+    return out
 
 
 class _Choice(ast.NodeTransformer):
@@ -591,13 +688,28 @@ def _leaves(st):
 
 
 def _reflective_use(stmts, names):
+    """a name (one of `names`; any name when names is None) is used as the attribute name of getattr/setattr/hasattr — or, for given
+    names, as the callee"""
+    if names is not None:
+        # names unpacked from the given ones count too:  method_name, kwargs = statement
+        names = set(names)
+        grew = True
+        while grew:
+            grew = False
+            for s_ in stmts:
+                for x in ast.walk(s_):
+                    if isinstance(x, ast.Assign) and len(x.targets) == 1 and isinstance(x.value, ast.Name) and x.value.id in names:
+                        for t in ast.walk(x.targets[0]):
+                            if isinstance(t, ast.Name) and t.id not in names:
+                                names.add(t.id)
+                                grew = True
     for s_ in stmts:
         for x in ast.walk(s_):
             if isinstance(x, ast.Call):
                 if isinstance(x.func, ast.Name) and x.func.id in ("getattr", "setattr", "hasattr") and len(x.args) >= 2 \
-                        and isinstance(x.args[1], ast.Name) and x.args[1].id in names:
+                        and isinstance(x.args[1], ast.Name) and (names is None or x.args[1].id in names):
                     return True
-                if isinstance(x.func, ast.Name) and x.func.id in names:
+                if names is not None and isinstance(x.func, ast.Name) and x.func.id in names:
                     return True
     return False
 
@@ -614,6 +726,25 @@ def specialise(stmts, depth=0):
             if isinstance(sub, list) and sub and isinstance(sub[0], ast.stmt) and not isinstance(st, (ast.FunctionDef, ast.AsyncFunctionDef, ast.ClassDef)):
                 setattr(st, fld, specialise(sub, depth))
         rest = stmts[i + 1:]
+        m0 = {}
+        if rest and _const_binding(st, m0) and depth < 6:
+            # n = "name" … getattr(x, n): the constant is read where the name was (the name is not rebound further down)
+            names0 = set(m0)
+            rebound = any(isinstance(x, ast.Name) and x.id in names0 and not isinstance(x.ctx, ast.Load) for s_ in rest for x in ast.walk(s_))
+            captured = any(isinstance(x, (ast.FunctionDef, ast.Lambda)) and any(isinstance(z, ast.Name) and z.id in names0 for z in ast.walk(x))
+                           for s_ in rest for x in ast.walk(s_))
+            dicts = {k for k, v in m0.items() if isinstance(v, ast.Dict)}
+            star_only = True
+            if dicts:
+                star = {id(kw.value) for s_ in rest for c_ in ast.walk(s_) if isinstance(c_, ast.Call) for kw in c_.keywords if kw.arg is None}
+                star_only = all(id(x) in star for s_ in rest for x in ast.walk(s_) if isinstance(x, ast.Name) and x.id in dicts)
+            if not rebound and not captured and star_only and _reflective_use(rest, names0):
+                cont = [_Fold().visit(_Sub(m0).visit(copy_tree(s_))) for s_ in rest]
+                for s_ in cont:
+                    ast.fix_missing_locations(s_)
+                out.append(st)
+                out.extend(specialise(cont, depth + 1))
+                return out
         if isinstance(st, ast.If) and rest and depth < 3:
             leaves = _leaves(st)
             if not st.orelse:
